@@ -493,7 +493,7 @@ func init() {
 func (p *c11) buildSpecial(j int) (*Program, string) {
 	ts := map[string]*gen.Template{"main": tpl("main", c11Special[j]()...), "lib": tpl("lib", c11macro("m", 1)),
 		"nomacros": tpl("nomacros", tx("no macros here"), &gen.NBlock{Name: "nb", Body: []gen.Node{tx("nor here")}}),
-		"lib3": tpl("lib3", &gen.NMacro{Name: "frame", Params: []string{"t"}, Body: []gen.Node{tx("["), pr(nm("t")), tx(":"), pr(&gen.EBlockFn{Name: str("b")}), tx("]")}}),
+		"lib3":     tpl("lib3", &gen.NMacro{Name: "frame", Params: []string{"t"}, Body: []gen.Node{tx("["), pr(nm("t")), tx(":"), pr(&gen.EBlockFn{Name: str("b")}), tx("]")}}),
 		"lib2": tpl("lib2", c11macro("top", 1), &gen.NIf{Conds: []gen.Expr{&gen.EBool{V: true}}, Bodies: [][]gen.Node{{c11macro("inif", 1)}}}, &gen.NBlock{Name: "blk", Body: []gen.Node{c11macro("inblock", 1)}},
 			&gen.NFor{Val: "i", Seq: &gen.EArr{Els: []gen.Expr{num(1)}}, Body: []gen.Node{c11macro("infor", 1)}})}
 	return &Program{Templates: ts, Main: "main", Ctx: map[string]interface{}{}}, fmt.Sprintf("special/%d", j)
